@@ -448,7 +448,11 @@ uint32 system_get_free_heap_size(void) { return 30000; }
 struct rst_info *system_get_rst_info(void) { return &sdk_rst_info; }
 void system_soft_wdt_restart(void) {}
 void system_soft_wdt_stop(void) {}
-void system_upgrade_flag_set(uint8 flag) { sdk_out("UPGFLAG %u", flag); }
+void (*sdk_upgflag_hook)(int flag) = NULL;
+void system_upgrade_flag_set(uint8 flag) {
+  sdk_out("UPGFLAG %u", flag);
+  if (sdk_upgflag_hook) sdk_upgflag_hook(flag);
+}
 void system_upgrade_reboot(void) {
   sdk_out("UPGREBOOT");
   sdk_dead = 1;
